@@ -431,14 +431,21 @@ pub fn run_space(
     // per worker: current outer index + 1 (0 = idle), and a tick of the inner input counter
     let current: Vec<AtomicU64> = (0..nthreads).map(|_| AtomicU64::new(0)).collect();
     let ticks: Vec<AtomicU64> = (0..nthreads).map(|_| AtomicU64::new(0)).collect();
+    // per worker: the kernel thread id (0 = not yet known), for the CPU-time watchdog
+    let tids: Vec<AtomicU64> = (0..nthreads).map(|_| AtomicU64::new(0)).collect();
     let done = AtomicBool::new(false);
     let mut total = Local::new();
     let locals: Mutex<Vec<Local>> = Mutex::new(vec![]);
     std::thread::scope(|s| {
-        // watchdog
+        // watchdog.  A hang is decided on the CPU time the worker THREAD has spent on one case
+        // (utime + stime of /proc/self/task/<tid>/stat), not on wall-clock time: on a loaded
+        // machine a case can stay current for many seconds without having run for more than a
+        // few milliseconds.  A case that stays current for HANG_BLOCKED_SECS of wall-clock time
+        // while its thread uses (almost) no CPU is blocked (a lock, a sleep) -- also a hang.
         s.spawn(|| {
-            let mut last: Vec<(u64, u64, Instant)> =
-                (0..nthreads).map(|_| (0, 0, Instant::now())).collect();
+            // (outer+1, inner, since, cpu ticks at that moment)
+            let mut last: Vec<(u64, u64, Instant, Option<u64>)> =
+                (0..nthreads).map(|_| (0, 0, Instant::now(), None)).collect();
             while !done.load(Ordering::Relaxed) {
                 std::thread::sleep(Duration::from_millis(200));
                 if past_deadline() {
@@ -448,9 +455,36 @@ pub fn run_space(
                 for w in 0..nthreads {
                     let c = current[w].load(Ordering::Relaxed);
                     let t = ticks[w].load(Ordering::Relaxed);
+                    let tid = tids[w].load(Ordering::Relaxed);
                     if c == 0 || c != last[w].0 || t != last[w].1 {
-                        last[w] = (c, t, Instant::now());
-                    } else if last[w].2.elapsed() > Duration::from_secs(HANG_SECS) {
+                        last[w] = (c, t, Instant::now(), thread_cpu_ticks(tid));
+                        continue;
+                    }
+                    let wall = last[w].2.elapsed();
+                    if wall < Duration::from_secs(HANG_SECS) {
+                        continue;
+                    }
+                    let verdict = match (last[w].3, thread_cpu_ticks(tid)) {
+                        (Some(a), Some(b)) => {
+                            let cpu = b.saturating_sub(a);
+                            if cpu >= HANG_SECS * CLK_TCK {
+                                Some(format!("the case has used {:.1} s of CPU time of its thread ({:.1} s of wall-clock time) without returning", cpu as f64 / CLK_TCK as f64, wall.as_secs_f64()))
+                            } else if wall >= Duration::from_secs(HANG_BLOCKED_SECS) && cpu < CLK_TCK {
+                                Some(format!("the case has been current for {:.0} s of wall-clock time while its thread used {:.2} s of CPU time: the call is blocked", wall.as_secs_f64(), cpu as f64 / CLK_TCK as f64))
+                            } else {
+                                None
+                            }
+                        }
+                        // no per-thread CPU clock available: fall back to a long wall-clock limit
+                        _ => {
+                            if wall >= Duration::from_secs(HANG_BLOCKED_SECS) {
+                                Some(format!("the case has been current for {:.0} s of wall-clock time (no per-thread CPU clock available)", wall.as_secs_f64()))
+                            } else {
+                                None
+                            }
+                        }
+                    };
+                    if let Some(why) = verdict {
                         // reconstruct the input: the t-th input of outer index c-1
                         let mut buf = vec![];
                         let mut k = 0u64;
@@ -462,15 +496,8 @@ pub fn run_space(
                             k += 1;
                         });
                         let inp = found.unwrap_or_default();
-                        println!(
-                            "HANG space={} outer={} inner={} input_hex={} input={}",
-                            space.name(),
-                            c - 1,
-                            t,
-                            hex(&inp),
-                            lossy(&inp)
-                        );
-                        std::process::exit(4);
+                        report_hang(ctx, &space.name(), c - 1, t, &inp, &why);
+                        std::process::exit(HANG_EXIT);
                     }
                 }
             }
@@ -480,10 +507,12 @@ pub fn run_space(
             let next = &next;
             let current = &current;
             let ticks = &ticks;
+            let tids = &tids;
             let locals = &locals;
             handles.push(s.spawn(move || {
                 let mut local = Local::new();
                 let mut buf: Vec<u8> = Vec::with_capacity(256);
+                tids[w].store(current_tid(), Ordering::Relaxed);
                 loop {
                     if ABORT.load(Ordering::Relaxed) {
                         break;
@@ -524,7 +553,64 @@ pub fn run_space(
     }
 }
 
+/// a case is a hang when its thread has spent this many seconds of CPU time on it
 pub const HANG_SECS: u64 = 5;
+/// ... or when it has been current this long (wall clock) while its thread used < 1 s of CPU
+pub const HANG_BLOCKED_SECS: u64 = 120;
+/// USER_HZ: the unit of utime/stime in /proc/<pid>/task/<tid>/stat (100 on every Linux ABI)
+pub const CLK_TCK: u64 = 100;
+/// exit status of a worker that stopped on a hang (the parent turns it into the verdict)
+pub const HANG_EXIT: i32 = 4;
+
+/// kernel thread id of the calling thread (0 when /proc is not available)
+pub fn current_tid() -> u64 {
+    std::fs::read_link("/proc/thread-self")
+        .ok()
+        .and_then(|p| p.file_name().and_then(|f| f.to_str()).and_then(|f| f.parse().ok()))
+        .unwrap_or(0)
+}
+
+/// utime + stime of one thread of this process, in clock ticks
+pub fn thread_cpu_ticks(tid: u64) -> Option<u64> {
+    if tid == 0 {
+        return None;
+    }
+    let s = std::fs::read_to_string(format!("/proc/self/task/{}/stat", tid)).ok()?;
+    // the command name (field 2) may contain spaces and parentheses: fields are counted from the last ')'
+    let rest = &s[s.rfind(')')? + 2..];
+    let f: Vec<&str> = rest.split(' ').collect();
+    // rest[0] is field 3 (state); utime is field 14, stime field 15
+    Some(f.get(11)?.parse::<u64>().ok()? + f.get(12)?.parse::<u64>().ok()?)
+}
+
+pub fn trunc_lossy(b: &[u8], n: usize) -> String {
+    if b.len() <= n {
+        lossy(b)
+    } else {
+        format!("{}... ({} bytes)", lossy(&b[..n]), b.len())
+    }
+}
+
+pub fn hang_path(prop: &str) -> String {
+    format!("{}/replay/{}/hang.json", crate::verif_dir(), prop)
+}
+
+/// Records a hang as a replay file (the parent prints the VIOLATION line) and describes it on stderr.
+pub fn report_hang(ctx: &Ctx, space: &str, outer: u64, inner: u64, input: &[u8], why: &str) {
+    let dir = format!("{}/replay/{}", crate::verif_dir(), ctx.prop);
+    let _ = std::fs::remove_dir_all(&dir);
+    let _ = std::fs::create_dir_all(&dir);
+    let sub = format!("{}.hang", ctx.prop.to_lowercase());
+    let j = json!({
+        "property": ctx.prop, "sub": sub, "class": format!("hang in space {}", space),
+        "space": space, "outer": outer, "inner": inner,
+        "case": Case::Input(input.to_vec()).to_json(),
+        "expected": format!("the call returns (within {} s of CPU time)", HANG_SECS),
+        "observed": why,
+    });
+    let _ = std::fs::write(hang_path(&ctx.prop), serde_json::to_string_pretty(&j).unwrap());
+    eprintln!("HANG space={} outer={} inner={} ({}) input={}", space, outer, inner, why, trunc_lossy(input, 300));
+}
 
 /// Generic parallel loop over `0..n` for E4-style product domains: `f(index, &mut Local)`.
 pub fn par_range(ctx: &Ctx, name: &str, n: u64, block: u64, f: &(dyn Fn(u64, &mut Local) + Sync)) -> RunStats {
